@@ -41,8 +41,8 @@ def base(dst):
     if r.returncode != 0:
         subprocess.run(f"rsync -a --exclude .git {repo}/ {dst}/", shell=True)
 # The analysis of one patched tree is the same for every property: it is run once for all properties and the
-# non-discharged obligations are cached under /verif/.cache (key: analyser binary, repository HEAD + working-tree
-# diff, known findings, patch). The cache only saves time - a missing or stale entry is recomputed.
+# non-discharged obligations are cached under /verif/.cache (key: analyser sources, repository HEAD, known
+# findings, patch). The cache only saves time - a missing or stale entry is recomputed.
 import hashlib
 def _h(*parts):
     m = hashlib.sha256()
@@ -56,7 +56,10 @@ def _file(p):
     except OSError:
         return b''
 _head = subprocess.run(f"git -C {repo} rev-parse HEAD", shell=True, capture_output=True, text=True).stdout.strip()
-_state = _h(_file(binp), _head, _file(os.path.join(verif, 'known_findings.json')))
+# the analyser is identified by its sources (the binary embeds VCS stamps that change with every commit of /verif)
+import glob as _glob
+_src = b''.join(_file(f) for f in sorted(_glob.glob(os.path.join(verif, 'checker', '*.go')) + [os.path.join(verif, 'checker', 'go.mod')]))
+_state = _h(_src, _head, _file(os.path.join(verif, 'known_findings.json')))
 cache_dir = os.path.join(verif, '.cache', 'selftest')
 os.makedirs(cache_dir, exist_ok=True)
 def analyse(tag, patch):
